@@ -9,6 +9,7 @@ CONSTANTS
   EventShapes <- ES_small
   EvNames <- N1
   Listeners <- L2
+  SubmitKinds <- K2
   Loose = FALSE
   Dev <- NoDev
 INVARIANT ProbeEventDuringCb
